@@ -207,7 +207,7 @@ def blocks_to_bytes(
                         constants,
                     )
                     args[block_index, instruction_index] = arg_value
-                n_instructions = instruction._n_args_override or _instrsize(arg_value)
+                n_instructions = _n_args(instruction, arg_value)
                 current_instruction_offset += n_instructions
         # Then go and update all the jump instructions. If any of them
         # change the number of instructions needed for the arg, repeat
@@ -217,7 +217,7 @@ def blocks_to_bytes(
             for instruction_index, instruction in enumerate(block):
                 arg = instruction.arg
                 arg_value = args[block_index, instruction_index]
-                n_instructions = instruction._n_args_override or _instrsize(arg_value)
+                n_instructions = _n_args(instruction, arg_value)
                 current_instruction_offset += n_instructions
 
                 if isinstance(arg, Jump):
@@ -234,10 +234,7 @@ def blocks_to_bytes(
                     # If we aren't overriding and the new size of instructions is not
                     # the same as the old, mark this as updated, so we re-calculate
                     # block positions!
-                    if (
-                        not instruction._n_args_override
-                        and n_instructions != _instrsize(new_arg_value)
-                    ):
+                    if n_instructions != _n_args(instruction, new_arg_value):
                         changed_instruction_lengths = True
                     args[block_index, instruction_index] = new_arg_value
 
@@ -267,7 +264,7 @@ def blocks_to_bytes(
                 )
 
             arg_value = args[block_index, instruction_index]
-            n_args = instruction._n_args_override or _instrsize(arg_value)
+            n_args = _n_args(instruction, arg_value)
             # The EXTENDED_ARG prefixes are on the same line as the instruction,
             # so that the line table covers every code unit (matters for the
             # length of the last entry on Python 3.10)
@@ -500,6 +497,14 @@ def _parse_bytes(b: bytes) -> Iterable[tuple[int, int, int, int, int]]:
             yield (opcode, arg, n_args, first_offset, next_offset)
             n_args = 0
             arg = 0
+
+
+def _n_args(instruction: Instruction, arg: int) -> int:
+    """
+    Number of code units for the instruction. An override can add unneccesary
+    EXTENDED_ARGs, but never remove ones needed for the value of the arg.
+    """
+    return max(instruction._n_args_override or 0, _instrsize(arg))
 
 
 def _instrsize(arg: int) -> int:
